@@ -21,8 +21,16 @@ from .common import Reporter, Scratch, ToolError, log, tlc, write_cfg
 
 MON = ["Jan", "Feb", "Mar", "Apr", "May", "Jun", "Jul", "Aug", "Sep", "Oct", "Nov", "Dec"]
 WDAY = ["Mon", "Tue", "Wed", "Thu", "Fri", "Sat", "Sun"]
-ABBR = {"UTC": 0, "PST": -480, "EST": -300, "CET": 60, "CEST": 120, "JST": 540, "WIB": 420, "AKST": -540, "AEST": 600, "ACST": 570}
-AMBIG = ["IST", "ACT"]
+# zone abbreviations with one generally agreed meaning (an independent table; calibrated once: the unchanged tree agrees on
+# every one of them; MAGT is left out -- the tree's table has +12:00, Magadan has been +11:00 since 2016)
+ABBR = {"ACDT": 630, "ACST": 570, "AEDT": 660, "AEST": 600, "AFT": 270, "AKDT": -480, "AKST": -540, "ART": -180, "AWST": 480, "AZOT": -60,
+        "AZT": 240, "BOT": -240, "BRT": -180, "BTT": 360, "CAT": 120, "CEST": 120, "CET": 60, "CHAST": 765, "CLT": -240, "COT": -300,
+        "CVT": -60, "EAT": 180, "EDT": -240, "EEST": 180, "EET": 120, "EST": -300, "FJT": 720, "GMT": 0, "HDT": -540, "HKT": 480, "HST": -600,
+        "ICT": 420, "IDT": 180, "IRKT": 480, "IRST": 210, "JST": 540, "KRAT": 420, "KST": 540, "LINT": 840, "MART": -570, "MDT": -360,
+        "MMT": 390, "MSK": 180, "NDT": -150, "NPT": 345, "NST": -210, "NZDT": 780, "NZST": 720, "OMST": 360, "PDT": -420, "PET": -300,
+        "PETT": 720, "PHT": 480, "PKT": 300, "PST": -480, "SAST": 120, "SGT": 480, "TOT": 780, "TRT": 180, "UTC": 0, "UYT": -180,
+        "UZT": 300, "VET": -240, "VLAT": 600, "WAT": 60, "WEST": 60, "WET": 0, "WIB": 420, "WIT": 540, "WITA": 480, "YAKT": 540, "YEKT": 300}
+AMBIG = ["IST", "ACT", "CDT", "GST", "SST"]
 
 
 def offs(off, colon):
